@@ -476,6 +476,9 @@ def run(tier, seed):
         rep.extra["cpp_part"] = "included"
     except ImportError:
         rep.extra["cpp_part"] = "not built yet"
+    from . import cfgrb
+
+    tasks += [(cfgrb.task, (PID, *c, tier, seed)) for c in cfgrb.combos(tier)]
     for d in pmap(_dispatch, tasks):
         rep.merge(d)
     rep.bounds = {"readings_per_tick": "0..2 (quick) / 0..3 (thorough)", "K_full_steps_per_propagation": "1-2 (quick) / 1-3 (thorough)", "timestamps": "all symbolic in [-100, 100], any order", "max_dt": MAX_DT, "histories": "held (time, state, covariance) symbolic: one tick from an arbitrary held state"}
@@ -491,6 +494,10 @@ def run(tier, seed):
 def replay(path):
     with open(path) as f:
         r = json.load(f)
+    if r.get("info", {}).get("kind") == "cfgrb":
+        from . import cfgrb
+
+        return cfgrb.replay(PID, r["info"])
     info = r["info"]
     if info["kind"] == "py-seq":
         differs, got, want = float_sequence_differs(r["inputs"], [tuple(k_) for k_ in info["ticks"]], info["with_control"], info.get("rejects"))
